@@ -283,7 +283,7 @@ Definition go_parse_float (s : list N) : option (option N) :=
                                | [] => (false, r)
                                end in
             match span_digits r1 with
-            | (_ :: _ as ed, []) =>
+            | ((_ :: _) as ed, []) =>
                 let e := Z.of_N (dec_value ed) in
                 Some (dec_to_b64 neg mant ((if eneg then - e else e) - scale)%Z)
             | _ => None
@@ -299,7 +299,7 @@ Definition big_set_string (s : list N) : option Z :=
                     | [] => (false, s)
                     end in
   match span_digits s1 with
-  | (_ :: _ as ds, []) => Some (if neg then (- Z.of_N (dec_value ds))%Z else Z.of_N (dec_value ds))
+  | ((_ :: _) as ds, []) => Some (if neg then (- Z.of_N (dec_value ds))%Z else Z.of_N (dec_value ds))
   | _ => None
   end.
 
